@@ -206,7 +206,7 @@ func planFor(o *options) tierPlan {
 	if b == 0 {
 		b = 34
 	}
-	return tierPlan{DetSeeds: 10, PlainS: b * 0.4, RaceS: b * 0.6, ColdProcs: 128, ColdRace: 512, ColdCount: 3, MinimiseS: 25, Probes: 100, GiantS: 4, WorkerGrace: 2 * time.Minute}
+	return tierPlan{DetSeeds: 10, PlainS: b * 0.4, RaceS: b * 0.6, ColdProcs: 256, ColdRace: 512, ColdCount: 3, MinimiseS: 25, Probes: 100, GiantS: 4, WorkerGrace: 2 * time.Minute}
 }
 
 type finding struct {
@@ -457,6 +457,9 @@ func freshProcessProbes(o *options, p *prepared, rs []*workerResult) (int, []fin
 		os.Remove(files[i])
 		if r.ProbeRes == nil || r.Err != nil {
 			continue // a probe that could not be evaluated proves nothing
+		}
+		if strings.HasPrefix(*r.ProbeRes, "abort:") {
+			continue // the brand-new process ran into one of the harness's own limits (step cap, task slots): no result to compare
 		}
 		if *r.ProbeRes != ps[i].Res {
 			var op struct {
